@@ -69,6 +69,8 @@ def register(m):
     m("C19", "b4-exec-without-finally-regression", "symplyphysics/docs/parse.py",
       "    try:\n        exec(compiled, {}, context)  # pylint: disable=exec-used\n    finally:\n        # patched module disables SymPy evaluation, do not leave it disabled if the module fails\n        reset_sympy_evaluation()\n",
       "    exec(compiled, {}, context)  # pylint: disable=exec-used\n", ("D7", "ERROR"), note="repaired in 9fdd2c0 (the digest anchor of the replica also changes: a refusal is acceptable)")
+    m("C16", "b4-solve-for-scalar-first-root-only-regression", "symplyphysics/core/experimental/solvers/__init__.py",
+      "        if any(equation == False for equation in equations):  # pylint: disable=singleton-comparison\n            continue\n", "", "Q4", note="the genuine defect repaired in 5c7e12c")
     # C09 N1: factories hand out fresh systems
     m("C09", "b2-transform-returns-argument", CSYS,
       ") -> CoordinateSystem:\n    new_coord_system = from_system.coord_system.create_new(",
